@@ -18,6 +18,15 @@ TEMPLATE = '''<%!
             context.write(">")
             return ""
         return decorate
+
+    @runtime.supports_caller
+    def pydef(context):
+        # a plain Python function called with content: runtime.supports_caller manages the caller stack around it
+        context.write("Y[")
+        context.write(context["probe"](16))
+        context["caller"].body()
+        context.write(context["probe"](17) + "]")
+        return ""
 %>\\
 <%def name="plain()">P[${probe(1)}]</%def>
 <%def name="buf()" buffered="True">B[${probe(2)}]</%def>
@@ -54,6 +63,7 @@ ${loop.index}${loop.parent.index}\\
 o${loop.index}\\
 % endfor
 b</%def>
+<%def name="s_pydef()">a<%call expr="pydef(context)">c${probe(18)}</%call>b</%def>
 <%def name="who()">${caller.body() if caller else 'none'}</%def>
 '''
 
@@ -83,6 +93,7 @@ SITES = {
     "s_block": ("aK[#12#]b", {12: "a"}),
     "s_callargs": ("aA[r#13#]b", {13: "aA["}),
     "s_nscall": ("aW[#4#n#14#z#5#]b".replace("z", ""), {4: "aW[", 14: "aW[#4#n", 5: "aW[#4#n#14#"}),
+    "s_pydef": ("aY[#16#c#18##17#]b", {16: "aY[", 18: "aY[#16#c", 17: "aY[#16#c#18#"}),
     "s_loopiter": ("a000o0100o1b".replace("000o0100o1", "0" + "00" + "o0" + "1" + "01" + "o1"), {(15, 1): "a0", (15, 2): "a000o01"}),
 }
 def _site_body(name):
